@@ -11,20 +11,20 @@ import (
 
 // CaseReport is the outcome of comparing model and implementation on one setup file.
 type CaseReport struct {
-	Setup      string        `json:"setup"`
-	Agree      bool          `json:"agree"`
-	Skipped    string        `json:"skipped,omitempty"`
-	Diffs      []string      `json:"diffs,omitempty"`
-	Cats       []string      `json:"cats,omitempty"`
-	LineDiffs  []LineDiff    `json:"lineDiffs,omitempty"`
-	CLI        CLIResult     `json:"cli"`
-	Model      *FrontResult  `json:"model,omitempty"`
-	ImplFuncs  []FuncSummary `json:"implFuncs,omitempty"`
-	ModelFuncs []FuncSummary `json:"modelFuncs,omitempty"`
-	Output     string        `json:"output,omitempty"`
-	BackHalfError string     `json:"backHalfError,omitempty"`
-	SetupSrc   string        `json:"-"`
-	Facts      *Facts        `json:"-"`
+	Setup         string        `json:"setup"`
+	Agree         bool          `json:"agree"`
+	Skipped       string        `json:"skipped,omitempty"`
+	Diffs         []string      `json:"diffs,omitempty"`
+	Cats          []string      `json:"cats,omitempty"`
+	LineDiffs     []LineDiff    `json:"lineDiffs,omitempty"`
+	CLI           CLIResult     `json:"cli"`
+	Model         *FrontResult  `json:"model,omitempty"`
+	ImplFuncs     []FuncSummary `json:"implFuncs,omitempty"`
+	ModelFuncs    []FuncSummary `json:"modelFuncs,omitempty"`
+	Output        string        `json:"output,omitempty"`
+	BackHalfError string        `json:"backHalfError,omitempty"`
+	SetupSrc      string        `json:"-"`
+	Facts         *Facts        `json:"-"`
 }
 
 // keepOutputs leaves the generated files in place (for the batched compile judge).
